@@ -92,6 +92,14 @@ Definition is_panic (o : out) : bool := match o with OutPanic => true | _ => fal
 Definition is_first (p : mph) : bool := match p with MFirst _ _ => true | _ => false end.
 Definition smaller_first (p : mph) : bool :=
   match p with MFirst idx n => (S idx <? n)%nat | _ => false end.
+(* a learner handed out for a background run (returned by Succeeded) that
+   asks for a retry gets its own kind: the scheduler would move the task to
+   the largest size class without the backlog check *)
+Definition retry_kind (p : mph) : string :=
+  match p with
+  | MBg => "C07:isc-background-learner-retries"
+  | _ => "C07:isc-retry-after-retry"
+  end.
 Definition clean_phase (p : mph) : bool :=
   match p with MFirst _ _ | MRetry => true | _ => false end.
 Definition active (p : mph) : bool :=
@@ -149,7 +157,7 @@ Definition p_step (c : cfg) (ms : mstate) (pre : stats) (o : op) (ob : obs) : st
   | p, OpFailed _ _ =>
     match o_out ob with
     | OutRetry exp tmo true =>
-      (first_fail (common ++ [(is_first p, "C07:isc-retry-after-retry")]
+      (first_fail (common ++ [(is_first p, retry_kind p)]
                    ++ [ (in_range 0 tmo (m_orig ms), "C07:isc-timeout-out-of-range");
                         (in_range 0 exp tmo, "C07:isc-expected-duration-out-of-range") ]
                    ++ cont_checks gets rels),
